@@ -4,7 +4,7 @@ out=$1; shift
 mkdir -p /dev/shm/thorough_out
 for c in "$@"; do
   s=$(date +%s)
-  VZ_OUT=/dev/shm/thorough_out /usr/bin/time -f "%U user %S sys" -o /dev/shm/thorough_out/$c.time timeout ${THOROUGH_CAP:-3600} /verif/check $c --tier thorough --jobs ${JOBS:-4} > /dev/shm/thorough_out/$c.log 2>&1
+  VZ_OUT=/dev/shm/thorough_out /usr/bin/time -f "%U user %S sys" -o /dev/shm/thorough_out/$c.time timeout ${THOROUGH_CAP:-3600} /verif/check $c --tier thorough --jobs ${JOBS:-4} > /dev/shm/thorough_out/$c.log 2> /dev/shm/thorough_out/$c.err
   rc=$?
   e=$(date +%s)
   echo "$c rc=$rc wall=$((e-s))s jobs=${JOBS:-4} cpu=[$(tail -1 /dev/shm/thorough_out/$c.time)] $(tail -1 /dev/shm/thorough_out/$c.log | cut -c1-160)" >> $out
